@@ -529,6 +529,19 @@ def _canonical_statements(tree: ast.AST):
                                 out.append(ast.copy_location(ast.Assign(targets=[t], value=_copy.deepcopy(st.value)), st))
                             i += 1
                             continue
+                        # o.f, o.g = E1, E2   ->  o.f = E1 ; o.g = E2    (targets: names / fields of names; values pure and not reading any target)
+                        if isinstance(st, ast.Assign) and len(st.targets) == 1 and isinstance(st.targets[0], ast.Tuple) and \
+                                isinstance(st.value, ast.Tuple) and len(st.targets[0].elts) == len(st.value.elts) and \
+                                all(_plain_read(t) and not isinstance(t, ast.Constant) for t in st.targets[0].elts) and \
+                                all(_pure_expr(v) for v in st.value.elts):
+                            ttxt = [ast.unparse(t) for t in st.targets[0].elts]
+                            tnames = {t.id for t in st.targets[0].elts if isinstance(t, ast.Name)}
+                            reads = {ast.unparse(x) for v in st.value.elts for x in ast.walk(v) if isinstance(x, (ast.Name, ast.Attribute))}
+                            if len(set(ttxt)) == len(ttxt) and not (set(ttxt) & reads) and not (tnames & {n for v in st.value.elts for n in _names_in(v)}):
+                                for t, v in zip(st.targets[0].elts, st.value.elts):
+                                    out.append(ast.copy_location(ast.Assign(targets=[t], value=v), st))
+                                i += 1
+                                continue
                         # x = x  (left behind by inlining)
                         if isinstance(st, ast.Assign) and len(st.targets) == 1 and isinstance(st.targets[0], ast.Name) and \
                                 isinstance(st.value, ast.Name) and st.value.id == st.targets[0].id:
@@ -695,8 +708,9 @@ def _propagate_field_reads(tree: ast.AST, computed: Set[str] = frozenset()):
                         continue
                     for k, st in enumerate(blk):
                         if not (isinstance(st, ast.Assign) and len(st.targets) == 1 and isinstance(st.targets[0], ast.Name) and
-                                isinstance(st.value, ast.Attribute) and _plain_read(st.value) and getattr(st, "ann", None) is None):
+                                isinstance(st.value, (ast.Attribute, ast.Name)) and _plain_read(st.value) and getattr(st, "ann", None) is None):
                             continue
+                        # (a plain name on the right is the degenerate chain: `a = b` with b possibly bound several times before, never after)
                         a = st.targets[0].id
                         chain = []
                         e = st.value
